@@ -36,6 +36,24 @@ def shapes():
     return seen
 
 
+def same_count():
+    g = {}
+    for v, lvl in T.all_version_levels():
+        g.setdefault(len(T.blocks(v, lvl)), []).append((v, lvl))
+    return g
+
+
+def judge_symbol(acc, case, v, lvl, frac, fam):
+    qr, data = build(v, lvl, frac, 1)
+    rep = C.read(qr)
+    good = (rep.version, rep.level) == (v, lvl) and rep.syndromes_ok and rep.payload == data
+    acc.eval(case, nontrivial=True, outcome=good, state=(v, lvl, fam))
+    acc.count('history_symbols')
+    if not good:
+        acc.violation('%s/%s-%s' % (fam, v, lvl), 'the %s-%s symbol made %s is not a valid symbol of that layout: %s'
+                      % (v, lvl, case[1], ([p for p in rep.problems if 'syndromes' in p] or rep.problems or ['payload differs'])[0][:140]), case)
+
+
 def gen_cases(tier):
     q = tier == 'quick'
     for v, lvl in T.all_version_levels():
@@ -51,6 +69,13 @@ def gen_cases(tier):
                     yield ('pairs', v, lvl)
     for (t, d), (v, lvl) in sorted(shapes().items()):
         yield ('shape', t, d, v, lvl)
+    # histories: every ordered pair of layouts with the same number of blocks made one after the other in one process, and all 168
+    # layouts in one process in ascending and in descending order (state kept between calls, e.g. a cache keyed by a block count)
+    for n, cells in sorted(same_count().items()):
+        if len(cells) > 1:
+            yield ('after', n)
+    yield ('sweep', 0)
+    yield ('sweep', 1)
     for v, lvl in ((40, 'H'), (27, 'Q')) + (() if q else ((40, 'L'), (14, 'M'))):
         yield ('allblocks', v, lvl)
 
@@ -145,6 +170,24 @@ def run_case(case, acc):
                     if rep.version != v or not rep.syndromes_ok:
                         acc.violation('invalid-codeword/%s-%s/boosted' % (v, qr.error), 'make(%r, **%r) -> %s: %s'
                                       % (content, kw, qr.designator, '; '.join(p for p in rep.problems if 'syndromes' in p)[:160] or rep.problems[:1]), case)
+    elif kind == 'after':
+        cells = same_count()[case[1]]
+        for a in cells:
+            for b in cells:
+                if a != b:
+                    try:
+                        build(a[0], a[1], 0.5, 0)
+                    except Exception:
+                        pass        # judged where a is the second symbol
+                    judge_symbol(acc, ('after1', 'directly after a %s-%s symbol' % a, b[0], b[1]), b[0], b[1], 0.5, 'after')
+    elif kind == 'sweep':
+        cells = list(T.all_version_levels())
+        if case[1]:
+            cells.reverse()
+        for i, (v, lvl) in enumerate(cells):
+            judge_symbol(acc, ('sweep1', 'as number %d of the %s sweep over all layouts' % (i, 'descending' if case[1] else 'ascending'), v, lvl), v, lvl, 1, 'sweep')
+    elif kind in ('after1', 'sweep1'):
+        judge_symbol(acc, case, case[2], case[3], 0.5 if kind == 'after1' else 1, kind[:-1])
     elif kind in ('single', 'pairs', 'shape', 'allblocks'):
         v, lvl = (case[3], case[4]) if kind == 'shape' else (case[1], case[2])
         qr, data = build(v, lvl, 1, 0)
